@@ -42,7 +42,13 @@
       * the packet's name against the names in the tables (relation_family): Nack / Data / Interest named N (depth 0 = the empty
         name .. 3) against every subset of {parent, N, N+1, N+2, sibling, elsewhere} pending and of {root, parent, N, N+1,
         sibling, elsewhere} attached -- in particular tables where N is only an inner node (entries strictly below, nothing at
-        it): exactly the entries the packet addresses by name are completed / invoked, reception returns normally.
+        it): exactly the entries the packet addresses by name are completed / invoked, reception returns normally;
+      * pending Interests that END IN AN IMPLICIT DIGEST at every relation to the packet's name (digest_family): the digest is the
+        arriving Data's own, that of the Data the Interest is completed with afterwards, the arriving Data's with one bit changed,
+        an unrelated one; the node the Interest waits at is the root, the parent of the packet's name, the name, one / two
+        components below, a sibling, elsewhere; CanBePrefix and MustBeFresh set / unset; the Data carries FreshnessPeriod absent /
+        0 / 1000 / no MetaInfo; also Nacks for the name with and without that digest: after EVERY delivery (the packet, then one
+        completing Data / Nack per Interest still pending) exactly the Interests addressed by name AND digest have ended.
 """
 import asyncio
 import copy
@@ -144,6 +150,27 @@ RULE = ('(A) packet lists (types/lengths over all four var-number forms incl. no
         'Interest invokes exactly the longest attached prefix of N once; everything below, beside and elsewhere is untouched, nothing '
         'is transmitted; afterwards every Interest still pending completes with its own Data and every handler serves an Interest '
         'under its prefix.  '
+        'Pending Interests that end in an implicit digest (everything by construction, harness\'s own encoder and SHA-256): an Interest '
+        'B/<ImplicitSha256Digest=X> waits at table node B; a Data addresses it iff (the Data is named B, or B is a proper prefix of its '
+        'name and the Interest has CanBePrefix) AND the SHA-256 of the Data packet is X; a Nack addresses it iff it returns B/<X>.  The '
+        'packet is a Data named N of depth 1-3 (FreshnessPeriod absent / 0 / 1000 ms / no MetaInfo element; DigestSha256-signed / '
+        'unsigned; bare / LpPacket with PIT token; awaited / as a task), a Nack for N/<digest of that Data> or a Nack for N (reason 150 / '
+        'absent / 0 / 50).  B is at each relation to N: the root (the Interest is named by the digest alone), the parent, N itself, N + 1 '
+        'component, N + 2 components, a sibling, elsewhere.  X is `own` (the digest of the arriving Data), `its` (the digest of the Data '
+        'delivered for this Interest afterwards), `flip` (own with one bit changed, position rotating), `rand` (unrelated); `none` = a '
+        'plain Interest.  (1) one digest Interest: front-end x depth x relation x {own, its, flip, rand} x CanBePrefix x MustBeFresh, with '
+        'every FreshnessPeriod form where the name condition can hold (root / parent / N, own / flip; rotating elsewhere), alone or beside a '
+        'plain Interest at the same node / at N / CanBePrefix parent / below; (2) tables: EVERY subset of the seven relations, kinds, '
+        'CanBePrefix, MustBeFresh rotating, Data and both Nack forms; (3) two Interests at ONE node: every ordered pair of the five '
+        'kinds at every relation (thorough: full product of (1) with signature x envelope x hand-over, sampled rotations of (2), all '
+        'depths of (3)).  Demanded after the packet AND after each packet of the aftermath (every Interest still pending gets, shorter '
+        'names first, a packet of its own: plain -> its Data; its -> exactly the Data with that digest; own where that Data addresses it '
+        '-> that Data; otherwise the Nack returning the very wire the application sent, reason 150 / absent / 50): reception returns '
+        'normally, no task ends with an unhandled error, nothing is transmitted; EXACTLY the Interests the packet addresses have ended, '
+        'with that packet (pending-interest-not-completed; in the aftermath pending-interest-lost), every other one is still pending '
+        '(pending-interest-disturbed) -- in particular `digest right, name condition wrong` (own below / beside / above without '
+        'CanBePrefix), `name right, digest wrong`, MustBeFresh against FreshnessPeriod 0 / absent (the receive path of an application '
+        'does not judge freshness), and a Nack for N against N/<X> and vice versa.  '
         'non-trivial = stream/packet of >= 4 bytes; distinct by (part, input) hash')
 ASSUMPTIONS = [
     'asyncio.StreamReader.readexactly consumes nothing until n bytes are buffered; tasks start in creation order '
